@@ -11,7 +11,10 @@ typedef struct bvar_s {
 				 * 3 the caller itself ran thread 0 through tp_thread_attach_first() and was detached again;
 				 * 4 tp_shutdown() was called and every worker has left its loop and sits in its stop hook;
 				 * 5 all running, but the calling pool thread's own queue is full (one-page pipes, filled by the caller
-				 *   itself right before the call): the kernel, not an injected errno, refuses the caller's own slot */
+				 *   itself right before the call): the kernel, not an injected errno, refuses the caller's own slot;
+				 * 6 the calling pool thread detached itself (tp_thread_dettach(self)) in the callback that makes the call;
+				 * 7 the last thread is busy in a callback when the set-up detaches it from outside (tp_thread_dettach
+				 *   from a foreign thread returned), the broadcast follows at once, then the callback is let go */
 	int	faults;		/* write() fault menu on during the broadcast call */
 } bvar_t;
 
@@ -85,6 +88,8 @@ static void
 caller_seed_cb(tpt_p tpt, void *udata) {
 	(void)udata;
 	caller_tnum = (int)tpt_get_num(tpt);
+	if (6 == cur->notrun)
+		tp_thread_dettach(tpt);	/* "not running" from here on; the thread leaves its loop when this callback returns */
 	if (5 == cur->notrun) {	/* fill the own queue to the last packet */
 		int k;
 		for (k = 0; k < 400 && 0 == tpt_msg_send(tpt, tpt, 0, filler_cb, NULL); k ++)
@@ -104,6 +109,13 @@ detach_cb(tpt_p tpt, void *udata) {
 
 static void
 bcast_scenario(int idx);
+
+static volatile int busy_gate = 0;
+static void
+busy_cb(tpt_p tpt, void *udata) {	/* keeps a thread inside a callback until the scenario lets it go */
+	(void)tpt; (void)udata;
+	sc_gate_wait(&busy_gate, "busy-callback");
+}
 
 static volatile int stop_gate = 0;
 static void
@@ -159,6 +171,15 @@ bcast_scenario(int idx) {
 		running[i] = (4 != v->notrun);
 	if (1 == v->notrun || 3 == v->notrun)
 		running[0] = 0;
+	if (7 == v->notrun) {
+		busy_gate = 0;
+		rc = tpt_msg_send(tp_thread_get(tpc_tp, (size_t)(v->W - 1)), NULL, 0, busy_cb, NULL);
+		if (0 != rc) sc_fail("harness", "busy send rc=%d", rc);
+		sc_wait_quiescent();	/* the last thread is parked inside the callback */
+		rc = tp_thread_dettach(tp_thread_get(tpc_tp, (size_t)(v->W - 1)));
+		if (0 != rc) sc_fail("harness", "tp_thread_dettach rc=%d", rc);
+		running[v->W - 1] = 0;	/* the call returned: the thread is out of the pool as far as any later call is concerned */
+	}
 	if (2 == v->notrun) {
 		rc = tpt_msg_send(tp_thread_get(tpc_tp, (size_t)(v->W - 1)), NULL, 0, detach_cb, NULL);
 		sc_wait_quiescent();
@@ -183,6 +204,12 @@ bcast_scenario(int idx) {
 		rc = tpt_msg_send(tp_thread_get(tpc_tp, (size_t)ct), NULL, 0, caller_seed_cb, NULL);
 		if (0 != rc)
 			sc_fail("harness", "seed send rc=%d", rc);
+		if (6 == v->notrun)
+			running[ct] = 0;
+	}
+	if (7 == v->notrun) {
+		sc_wait_quiescent();	/* the call is over (or waits for the busy thread: then it never returns) */
+		busy_gate = 1;
 	}
 	sc_wait_quiescent();
 	tpc_scribble();
